@@ -565,3 +565,180 @@ def inline_arith_temps(fn, keep=()):
     new = T().visit(new)
     ast.fix_missing_locations(new)
     return new
+
+
+def inline_private_calls(repo, cls, fn, depth=2, only=None, _seen=()):
+    """copy of method `fn` of class `cls` in which calls `self._helper(args)` of *simple* helpers defined in the class
+    hierarchy are replaced by the helper's body (extract-method refactorings undone before a CFG / term rule looks):
+      - statement `self._h(a)`            -> `p = a` ... body (a trailing bare `return` dropped)
+      - `x = self._h(a)` / `return self._h(a)` with the helper ending in its only `return e` -> body, then `x = e` / `return e`
+      - a helper that is a single `return e` is substituted inside any expression
+    Helpers with early returns, yields, nested defs, *args/**kwargs, or recursion are left as calls.  Parameters and the
+    helper's locals are renamed with a unique prefix.  `only`: optional predicate on the helper name."""
+    import copy
+    import itertools
+    counter = itertools.count(1)
+
+    def helper_of(call):
+        if not (isinstance(call, ast.Call) and isinstance(call.func, ast.Attribute) and isinstance(call.func.value, ast.Name) and call.func.value.id == "self"):
+            return None
+        name = call.func.attr
+        if not name.startswith("_") or name.startswith("__") or name in _seen or (only is not None and not only(name)):
+            return None
+        k, h = repo.find_method(cls, name)
+        if h is None or h is fn:
+            return None
+        a = h.args
+        if a.vararg or a.kwarg or a.kwonlyargs or any(isinstance(d, ast.Name) and d.id in ("staticmethod", "classmethod", "property") for d in h.decorator_list):
+            if any(isinstance(d, ast.Name) and d.id == "staticmethod" for d in h.decorator_list) and not (a.vararg or a.kwarg or a.kwonlyargs):
+                pass
+            else:
+                return None
+        if any(isinstance(x, (ast.Yield, ast.YieldFrom, ast.FunctionDef, ast.Lambda, ast.Global, ast.Nonlocal)) for st in h.body for x in ast.walk(st)):
+            return None
+        rets = [x for st in h.body for x in ast.walk(st) if isinstance(x, ast.Return)]
+        body = [st for st in h.body if not (isinstance(st, ast.Expr) and isinstance(st.value, ast.Constant))]
+        if not body:
+            return None
+        last = body[-1]
+        if any(r is not last for r in rets):
+            return None      # early returns
+        return h, body
+
+    def bind(h, call, prefix):
+        """-> (prelude assignments, rename map) or None"""
+        static = any(isinstance(d, ast.Name) and d.id == "staticmethod" for d in h.decorator_list)
+        params = [p.arg for p in h.args.args]
+        if not static:
+            params = params[1:]
+        defaults = dict(zip(params[len(params) - len(h.args.defaults):], h.args.defaults))
+        given = dict(zip(params, call.args))
+        if len(call.args) > len(params):
+            return None
+        for kw in call.keywords:
+            if kw.arg is None or kw.arg not in params or kw.arg in given:
+                return None
+            given[kw.arg] = kw.value
+        locs = {t.id for st in h.body for x in ast.walk(st) if isinstance(x, (ast.Assign, ast.AugAssign, ast.For, ast.With, ast.ExceptHandler, ast.comprehension))
+                for t in ast.walk(x) if isinstance(t, ast.Name) and isinstance(t.ctx, ast.Store)}
+        locs |= {x.name for st in h.body for x in ast.walk(st) if isinstance(x, ast.ExceptHandler) and x.name}
+        ren = {n: prefix + n for n in set(params) | locs}
+        pre = []
+        for p_ in params:
+            v = given.get(p_, defaults.get(p_))
+            if v is None:
+                return None
+            pre.append(ast.Assign(targets=[ast.Name(id=ren[p_], ctx=ast.Store())], value=copy.deepcopy(v)))
+        return pre, ren
+
+    class Ren(ast.NodeTransformer):
+        def __init__(self, ren):
+            self.ren = ren
+
+        def visit_Name(self, node):
+            if node.id in self.ren:
+                return ast.copy_location(ast.Name(id=self.ren[node.id], ctx=node.ctx), node)
+            return node
+
+        def visit_ExceptHandler(self, node):
+            self.generic_visit(node)
+            if node.name in self.ren:
+                node.name = self.ren[node.name]
+            return node
+
+    def expand(call, at):
+        """-> (statements to run first, expression that stands for the call's value or None)"""
+        hb = helper_of(call)
+        if hb is None:
+            return None
+        h, body = hb
+        prefix = "_inl%d_" % next(counter)
+        b = bind(h, call, prefix)
+        if b is None:
+            return None
+        pre, ren = b
+        stmts = [Ren(ren).visit(copy.deepcopy(st)) for st in body]
+        value = None
+        if isinstance(stmts[-1], ast.Return):
+            value = stmts[-1].value
+            stmts = stmts[:-1]
+        out = pre + stmts
+        for st in out:
+            ast.copy_location(st, at)
+            for x in ast.walk(st):
+                if not hasattr(x, "lineno") or True:
+                    try:
+                        ast.copy_location(x, at) if not hasattr(x, "lineno") else None
+                    except Exception:
+                        pass
+        return out, value
+
+    changed = [False]
+
+    def do_block(stmts):
+        out = []
+        for st in stmts:
+            for fld in ("body", "orelse", "finalbody"):
+                blk = getattr(st, fld, None)
+                if isinstance(blk, list) and blk and isinstance(blk[0], ast.stmt):
+                    setattr(st, fld, do_block(blk))
+            if isinstance(st, ast.Try):
+                for hnd in st.handlers:
+                    hnd.body = do_block(hnd.body)
+            tgt_call = None
+            if isinstance(st, ast.Expr) and isinstance(st.value, ast.Call):
+                tgt_call = ("expr", st.value)
+            elif isinstance(st, ast.Assign) and isinstance(st.value, ast.Call):
+                tgt_call = ("assign", st.value)
+            elif isinstance(st, ast.Return) and isinstance(st.value, ast.Call):
+                tgt_call = ("return", st.value)
+            if tgt_call is not None:
+                r = expand(tgt_call[1], st)
+                if r is not None:
+                    pre, value = r
+                    changed[0] = True
+                    out += pre
+                    if tgt_call[0] == "assign":
+                        out.append(ast.copy_location(ast.Assign(targets=st.targets, value=value if value is not None else ast.Constant(value=None)), st))
+                    elif tgt_call[0] == "return":
+                        out.append(ast.copy_location(ast.Return(value=value), st))
+                    elif value is not None and any(isinstance(x, ast.Call) for x in ast.walk(value)):
+                        out.append(ast.copy_location(ast.Expr(value=value), st))
+                    continue
+            # single-expression helpers inside larger expressions
+            class Sub(ast.NodeTransformer):
+                def visit_Call(self, node):
+                    self.generic_visit(node)
+                    hb = helper_of(node)
+                    if hb is None:
+                        return node
+                    h, body = hb
+                    if len(body) != 1 or not isinstance(body[0], ast.Return) or body[0].value is None:
+                        return node
+                    b = bind(h, node, "_inl%d_" % next(counter))
+                    if b is None:
+                        return node
+                    pre, ren = b
+                    # substitute parameters by the argument expressions directly
+                    amap = {t.targets[0].id: t.value for t in pre}
+                    ren_back = {v: k for k, v in ren.items()}
+
+                    class Arg(ast.NodeTransformer):
+                        def visit_Name(self, n):
+                            key = ren.get(n.id)
+                            if key in amap and isinstance(n.ctx, ast.Load):
+                                return copy.deepcopy(amap[key])
+                            return n
+                    changed[0] = True
+                    return ast.copy_location(Arg().visit(copy.deepcopy(body[0].value)), node)
+            st = Sub().visit(st)
+            out.append(st)
+        return out
+    new = copy.deepcopy(fn)
+    new.body = do_block(new.body)
+    ast.fix_missing_locations(new)
+    if not changed[0]:
+        return fn
+    if depth > 1:
+        return inline_private_calls(repo, cls, new, depth - 1, only, _seen + (fn.name,))
+    return new
